@@ -172,6 +172,8 @@ def call_impl(fn, kwargs, expect_shape=None):
 
     if KW_TRANSFORM is not None:
         kwargs = KW_TRANSFORM(dict(kwargs))
+        if "__expect_shape__" in kwargs:          # the transform made the arrays multi-dimensional
+            expect_shape = kwargs.pop("__expect_shape__")
     before = {k: snapshot(v) for k, v in kwargs.items()}
     try:
         with warnings.catch_warnings():
